@@ -41,5 +41,6 @@ static void fin(int n) {
   VF_ASSERT(mtx->try_lock(), "mutex leaked: still locked after every holder unlocked");
   if (tl_ok) vf_witness(1);
 }
+extern "C" void h_final1() { fin(1); }
 extern "C" void h_final2() { fin(2); }
 extern "C" void h_final3() { fin(3); }
